@@ -26,15 +26,16 @@ fn blockty(v: &Value) -> we::BlockType {
     }
 }
 
-fn base_module(body: &[Value], nresults: u64, nlocals: u64) -> Vec<u8> {
+fn base_module(body: &[Value], nresults: u64, nlocals: u64, nparams: u64) -> Vec<u8> {
     let mut m = we::Module::new();
     let mut t = we::TypeSection::new();
     t.ty().function([], [we::ValType::I32]); // 0: cond
     t.ty().function([we::ValType::I32], []); // 1: probe / obs
+    let ps: Vec<we::ValType> = (0..nparams).map(|_| we::ValType::I32).collect();
     if nresults == 0 {
-        t.ty().function([], []);
+        t.ty().function(ps, []);
     } else {
-        t.ty().function([], [we::ValType::I32]);
+        t.ty().function(ps, [we::ValType::I32]);
     }
     m.section(&t);
     let mut i = we::ImportSection::new();
@@ -284,10 +285,11 @@ fn run_case(case: &Value) -> Value {
     let body = case["body"].as_array().unwrap();
     let nresults = case["results"].as_u64().unwrap_or(0);
     let nlocals = case["locals"].as_u64().unwrap_or(0);
+    let nparams = case["params"].as_u64().unwrap_or(0);
     let path = case["path"].as_str().unwrap_or("moditer");
     let plan = case["plan"].as_array().cloned().unwrap_or_default();
     let twice = case["encode_twice"].as_bool().unwrap_or(false);
-    let base: &'static [u8] = Box::leak(base_module(body, nresults, nlocals).into_boxed_slice());
+    let base: &'static [u8] = Box::leak(base_module(body, nresults, nlocals, nparams).into_boxed_slice());
     if let Err(e) = validate(base) {
         return json!({ "id": case["id"], "ok": false, "base_invalid": e });
     }
